@@ -28,6 +28,7 @@ PROPERTIES = {
             ('C01-R6', cextra.rule_inverse_cleanup, 'quick'),
             ('C01-R7', cextra.rule_sequence_shape, 'quick'),
             ('C03-R3', c03.rule_start_typestate, 'quick'),  # an extglob group that loses START guards changes what the group matches
+            ('C03-R2', c03.rule_guard_tables, 'quick'),  # rounds 4/5: a seeded change of C01 was visible to this rule only
         ],
     },
     'C02': {
@@ -149,6 +150,7 @@ PROPERTIES = {
             ('C14-R5', cextra.rule_is_hidden, 'quick'),
             ('C07-R3', clists.rule_negateall_default, 'quick'),  # WcMatch relies on the implicit `**` of negation-only patterns
             ('C08-R4', clists.rule_translate_compile_siblings, 'quick'),
+            ('C02-R3', c02.rule_separator_pairing, 'quick'),  # rounds 4/5: a seeded change of C14 was visible to this rule only
         ],
     },
     'C15': {
@@ -318,6 +320,7 @@ PROPERTIES = {
             ('C02-R3', c02.rule_separator_pairing, 'quick'),
             ('C07-R1', clists.rule_routing, 'quick'),
             ('C08-R4', clists.rule_translate_compile_siblings, 'quick'),
+            ('C02-R10', cextra.rule_lookahead_putback, 'quick'),  # rounds 4/5: a seeded change of C17 was visible to this rule only
         ],
     },
     'C07': {
